@@ -99,7 +99,10 @@ func (h *History) Write(s string) (int, error) {
 		return 0, err
 	}
 
-	_, err = f.Write(append(b, '\n'))
+	// each record starts on a fresh line: if the previous write was torn (eg
+	// crash) then its partial record must not swallow this one. Blank lines
+	// are skipped when the file is read back.
+	_, err = f.Write(append(append([]byte{'\n'}, b...), '\n'))
 	f.Close()
 	return h.Len(), err
 }
